@@ -49,6 +49,7 @@ func phasesFor(prop string) []phaseDef {
 		return []phaseDef{
 			{"tapes", "plain", 400000, 4000000, func(r *Rng, i int) []*Scenario { return genWalk(r) }},
 			{"single-enum", "plain", 1500, 20000, func(r *Rng, i int) []*Scenario { return genWalkEnum(r) }},
+			{"wide", "plain", 480, 8000, func(r *Rng, i int) []*Scenario { return genWalkWide(r) }},
 		}
 	case "C19":
 		return []phaseDef{
@@ -266,7 +267,7 @@ func genEnumK(r *Rng, prop, phase, kind string) []*Scenario {
 // ---- C04 -------------------------------------------------------------------
 
 func genWalkScn(r *Rng, nblocks int) *WalkScn {
-	ws := &WalkScn{View: r.Pick([]string{"default", "default", "virtual-root", "virtual-root", "reversed", "filtered"})}
+	ws := &WalkScn{View: r.Pick([]string{"default", "default", "virtual-root", "virtual-root", "reversed", "filtered", "count-only", "child-only"})}
 	ws.Block = r.Intn(nblocks + 1)
 	ws.HideSeed = r.U64()
 	ws.PreNil = r.Chance(0.08)
@@ -376,6 +377,43 @@ func genWalk(r *Rng) []*Scenario {
 		n = len(blocks)
 	}
 	return []*Scenario{{Property: "C18", Phase: "tapes", Doc: doc, Walk: genWalkScn(r, n)}}
+}
+
+// genWalkWide: nodes with very many children (just around powers of two up
+// to 4096) — a virtual root over many blocks, a list of many items, a
+// paragraph of many lines — so that traversal-stack growth and batching
+// thresholds are crossed.
+func genWalkWide(r *Rng) []*Scenario {
+	base := []int{33, 64, 65, 128, 129, 256, 257, 512, 513, 1024, 1025, 1026, 2048, 2049, 4097}[r.Intn(15)]
+	n := base + r.Range(-1, 1)
+	var sb strings.Builder
+	kind := r.Intn(4)
+	for i := 0; i < n; i++ {
+		switch kind {
+		case 0: // many root blocks
+			sb.WriteString("p" + itoa(i%10) + "\n\n")
+		case 1: // one list, many items
+			sb.WriteString("- i\n")
+		case 2: // one paragraph, many lines (2 inlines per line)
+			sb.WriteString("l\n")
+		default: // many inline siblings in one line
+			sb.WriteString("*a* ")
+		}
+	}
+	sb.WriteString("\n")
+	ws := genWalkScn(r, 1)
+	switch kind {
+	case 0:
+		ws.View = r.Pick([]string{"virtual-root", "reversed", "filtered"})
+	default:
+		ws.View = r.Pick([]string{"default", "virtual-root", "child-only", "count-only"})
+		ws.Block = 0
+	}
+	ws.Reentrant = false
+	if r.Chance(0.5) {
+		ws.Tape = "" // a complete walk
+	}
+	return []*Scenario{{Property: "C18", Phase: "wide", Doc: []byte(sb.String()), Walk: ws}}
 }
 
 // genWalkEnum: every single-prune and every single-abort position of one tree.
